@@ -401,6 +401,24 @@ pub fn validate_json_from_str(cddl: &str, json: &str) -> std::result::Result<JsV
 
 #[cfg(not(target_arch = "wasm32"))]
 #[cfg(feature = "cbor")]
+/// A CBOR document that cannot be decoded is a document error, not a schema error
+fn cbor_document_error(e: cbor_value::DecodeError) -> cbor::Error<std::io::Error> {
+  use cbor_value::DecodeError;
+
+  cbor::Error::CBORParsing(match e {
+    DecodeError::Io(e) => ciborium::de::Error::Io(e),
+    DecodeError::Syntax(offset) => ciborium::de::Error::Syntax(offset),
+    DecodeError::UnexpectedEof => {
+      ciborium::de::Error::Io(std::io::Error::from(std::io::ErrorKind::UnexpectedEof))
+    }
+    DecodeError::UnexpectedBreak => {
+      ciborium::de::Error::Semantic(None, "unexpected break".to_string())
+    }
+  })
+}
+
+#[cfg(not(target_arch = "wasm32"))]
+#[cfg(feature = "cbor")]
 #[cfg(feature = "additional-controls")]
 /// Validate CBOR slice from a given CDDL document string
 pub fn validate_cbor_from_slice(
@@ -410,7 +428,7 @@ pub fn validate_cbor_from_slice(
 ) -> cbor::Result<std::io::Error> {
   let cddl = cddl_from_str(cddl, true).map_err(cbor::Error::CDDLParsing)?;
 
-  let cbor = decode_cbor(cbor_slice).map_err(|e| cbor::Error::CDDLParsing(e.to_string()))?;
+  let cbor = decode_cbor(cbor_slice).map_err(cbor_document_error)?;
 
   let mut cv = CBORValidator::new(&cddl, cbor, enabled_features);
   cv.validate()
@@ -422,7 +440,7 @@ pub fn validate_cbor_from_slice(
 /// Validate CBOR slice from a given CDDL document string
 pub fn validate_cbor_from_slice(cddl: &str, cbor_slice: &[u8]) -> cbor::Result<std::io::Error> {
   let cddl = cddl_from_str(cddl, true).map_err(cbor::Error::CDDLParsing)?;
-  let cbor = decode_cbor(cbor_slice).map_err(|e| cbor::Error::CDDLParsing(e.to_string()))?;
+  let cbor = decode_cbor(cbor_slice).map_err(cbor_document_error)?;
 
   let mut cv = CBORValidator::new(&cddl, cbor);
   cv.validate()
